@@ -193,7 +193,7 @@ def run(ctx):
     common.pmap(ctx, _prog_worker, [(j, pr, int(ctx.seed * 1000003 + j)) for j, pr in enumerate(progs)])
     # traced sweeps with / without stabilisation
     trs, metas = [], []
-    for t in range(60 if quick else 500):
+    for t in range(240 if quick else 2000):
         d = int(rng.integers(2, 7))
         n = [int(x) for x in rng.integers(1, 4, size=d)]
         r = [1] + [int(x) for x in rng.choice([1, 2, 5], size=d - 1)] + [1]
@@ -211,6 +211,16 @@ def run(ctx):
             sh = [int(x) for x in rng.choice([0, 26, -26, 300, 450], size=d)]      # adjacent products stay representable
             # at most one core below core_stab's documented threshold 1e-100 (such a core is passed through unscaled)
             sh[int(rng.integers(d))] = -500
+            if t % 8 == 5:
+                # long chains of uniformly huge / tiny cores: every core is representable, the product over one side of
+                # the pivot is not (what stabilisation exists for); pivots at both ends so that either sweep is long
+                d = int(rng.integers(6, 10))
+                n = [int(x) for x in rng.integers(1, 3, size=d)]
+                r = [1] + [int(x) for x in rng.choice([1, 2, 3], size=d - 1)] + [1]
+                Y = make_tt(rng, n, r, 'generic')
+                base = [G.copy() for G in Y]
+                sh = [int(rng.choice([-150, 200, -100, 130]))] * d
+                k = int(rng.choice([0, 1, d - 2, d - 1]))
             S = int(sum(sh))
             Y = [G * 2.0 ** s_ for G, s_ in zip(Y, sh)]
         keep = [G.copy() for G in Y]
@@ -231,10 +241,17 @@ def run(ctx):
         norm_ok = wf and abs(p) < 1000 and abs(safe_norm(Z[k], p) - np.linalg.norm(D0)) <= 1e-9 * (np.linalg.norm(D0) + 1e-3 * scale)
         p_ok = (not stab) or (isinstance(p, (int, np.integer)) and abs(p) < 1000 and wf and all(np.abs(G).max() < 2. + 1e-12 for G in Z))
         fresh_ok = all(np.array_equal(a, b) for a, b in zip(Y, keep)) and wf and not any(np.shares_memory(a, b) for a in Z for b in Y)
+        rr = list(r)
+        for j in range(k):
+            rr[j + 1] = min(rr[j] * n[j], rr[j + 1])
+        for j in range(d - 1, k, -1):
+            rr[j] = min(rr[j], n[j] * rr[j + 1])
+        rank_ok = wf and all(int(Z[j].shape[2]) <= rr[j + 1] for j in range(d))
+        post_ok = bool(L_ok and R_ok and dense_ok and norm_ok and p_ok and fresh_ok and rank_ok)
         ev.append(dict(ev='end', r=[1] + [int(G.shape[2]) for G in Z] if wf else [99] * (d + 1), L_ok=bool(L_ok), R_ok=bool(R_ok), dense_ok=bool(dense_ok),
                        norm_ok=bool(norm_ok), p_ok=bool(p_ok), fresh_ok=bool(fresh_ok)))
         trs.append(dict(n=n, r=r, k=k, stab=stab, ev=ev))
-        metas.append(dict(n=n, r=r, k=k, stab=stab, kind=kind))
+        metas.append(dict(n=n, r=r, k=k, stab=stab, kind=kind, post_ok=post_ok))
     verdicts, st, gen, runs = traces.validate('Trace_Orth', trs, cfg='Trace_Orth.cfg', diag_cfg='Trace_Orth_diag.cfg')
     for r_ in runs:
         ctx.add_tlc(r_, 'trace validation (Trace_Orth), %d traces' % len(trs))
@@ -242,6 +259,10 @@ def run(ctx):
         ctx.case(key=repr(mt), nontrivial=mt['stab'] or mt['kind'] in ('deficient', 'scaled'), sample={'sweep': mt, 'events': tr['ev']} if mt['stab'] and len(tr['ev']) > 4 else None)
         if v['ok']:
             ctx.trace_ok()
+        elif mt['post_ok']:
+            # every postcondition the property states holds; only the schedule of inner single steps differs from the
+            # specification's (an implementation detail the property does not fix): reported in the evidence, not a verdict
+            ctx.notes['schedule_deviations'] = ctx.notes.get('schedule_deviations', 0) + 1
         else:
             ctx.violation('orthogonalize:trace', 'orthogonalize(k=%d, use_stab=%s) is not the specified composition of single steps / does not meet its postconditions (%s); %s'
                           % (mt['k'], mt['stab'], v['why'], mt), case={'meta': mt, 'trace': tr})
